@@ -1,6 +1,6 @@
 (** C03 — compiled evaluation implements the core-language semantics: property theorems only. *)
 From Coq Require Import ZArith List Bool Arith.
-From ChibiV Require Import C03.Defs C03.Model C03.Spec C03.Proofs C03.Simulation C03.SimCalls C03.SimBoxes C03.SimRest.
+From ChibiV Require Import C03.Defs C03.Model C03.Spec C03.Proofs C03.Simulation C03.SimCalls C03.SimBoxes C03.SimRest C03.SimClos.
 Import ListNotations.
 
 (** distinct variables of one frame (parameters, rest, internal defines) never share a slot *)
@@ -69,24 +69,61 @@ Print Assumptions boxing_consistent.
 
 (** compile_correct, the part that is proved.  FULL STATEMENT (not proved):
       forall fuel prog v st', eval_program fuel prog (mkstore [] []) = SVal v st' ->
-      exists fuel' v' s', run_program fuel' prog [] [] = Done v' s' /\ vrelR (heap s') v' v      (and likewise for errors).
-    PROVED (fragment [fragR], coq/C03/SimRest.v on top of SimCalls.v): literals, global references, references to
-    parameters and to the rest parameter of the current lambda, if, begin, the inlined unary / binary opcodes except eq?,
-    closed lambda expressions (no free local variables, no internal defines, nothing assigned) WITH OR WITHOUT A REST
-    PARAMETER, and APPLICATIONS of such procedures in non-tail (CALL) and tail position (TAIL-CALL) under all three
-    argument protocols of make_call (exact arity, rest list built from the surplus arguments or '() inserted, rest
-    flagged UNUSED_REST: surplus arguments left on the stack), recursion through globals included: whenever the SPEC
-    interpreter yields a value, the code [generate] emits -- wherever it sits in the current procedure's code -- runs
-    on the model VM in finitely many steps EITHER to the instruction just after it with a value representing the SPEC's
-    value pushed on the otherwise unchanged stack (same fp / self / globals), OR (only for code in tail position, when a
-    TAIL-CALL was executed) to the return point recorded in the current frame header with that value pushed on the
-    stack below the frame; the old heap is a prefix of the new one; the SPEC store only grows.
-    [fragR] records per lambda the variables without a stack slot (the rest parameter when flagged UNUSED_REST);
-    [fragR0_is_fragR] below shows this is no restriction -- it is exactly theorem rest_unused_sound.
-    MISSING: set! / boxes / internal defines together with calls (separately: compile_correct_partial_boxes), closures
-    with free local variables (MAKE-PROCEDURE, CLOSURE-REF), eq? on pairs, error outcomes, top-level define and the
-    driver run_program over several forms; those are only tested per program (model compiler + model VM vs SPEC). *)
+      exists fuel' v' s', run_program fuel' prog [] [] = Done v' s' /\ vrelF (heap s') (cells st') v' v   (same for errors).
+    PROVED: the PURELY FUNCTIONAL fragment [fragF] (coq/C03/SimClos.v on top of SimRest.v / SimCalls.v): literals, global
+    references, references to parameters and to the rest parameter of the current lambda, references to variables of
+    ENCLOSING lambdas that are in the current lambda's free-variable list (CLOSURE-REF), if, begin, the inlined unary /
+    binary opcodes except eq?, lambda expressions with or without rest parameter and with ANY free-variable list whose
+    entries can be fetched where the lambda expression stands (PUSH of a literal procedure when the list is empty, else
+    MAKE-VECTOR, the fill loop LOCAL-REF|CLOSURE-REF; PUSH k; STACK-REF 3; VECTOR-SET, MAKE-PROCEDURE), and APPLICATIONS in
+    non-tail (CALL) and tail position (TAIL-CALL) under all three argument protocols of make_call, recursion through
+    globals included.  No set! / internal define (so nothing is boxed and captured variables are copied by value).
+    Whenever the SPEC interpreter yields a value, the code [generate] emits -- wherever it sits in the current procedure's
+    code -- runs on the model VM in finitely many steps EITHER to the instruction just after it with a value representing
+    the SPEC's value pushed on the otherwise unchanged stack (same fp / self / globals), OR (only for code in tail
+    position, when a TAIL-CALL was executed) to the return point recorded in the current frame header with that value
+    pushed on the stack below the frame; the old heap is a prefix of the new one; the SPEC store only grows.
+    [vrelF]: literals equal, pairs by heap cells, a SPEC closure (code + environment of LOCATIONS) is represented by a
+    procedure object whose code is the entry code of its lambda and whose vector holds, per free variable, a value
+    representing the content of that variable's location.
+    MISSING: set! / boxes / internal defines together with calls (separately: compile_correct_partial_boxes) -- hence
+    letrec, named let and do loops inside procedures --, eq? on pairs, error outcomes, top-level define and the driver
+    run_program over several forms; those are only tested per program (model compiler + model VM vs SPEC). *)
 Theorem compile_correct_partial : forall fuel e cur env st v st' tl svs s pre post,
+  fragF cur e = true ->
+  eval fuel e env st = SVal v st' ->
+  unboxed svs ->
+  code_of (self s) = pre ++ generate tl svs (lctxF cur) e ++ post -> ip s = length pre ->
+  env_okF cur env st s ->
+  store_ext st st' /\
+  exists v' hx, vrelF (heap s ++ hx) (cells st') v' v /\
+    ((exists n, nsteps n s = Some (mkst (v' :: stk s) (fp s) (self s)
+                                        (length pre + length (generate tl svs (lctxF cur) e))
+                                        (heap s ++ hx) (globals s)))
+     \/ (tl = true /\ forall j rip rself rfp, frame_info s = Some (j, rip, rself, rfp) -> j <= fp s ->
+           exists n, nsteps n s = Some (mkst (v' :: below (fp s - j) (stk s)) rfp rself rip (heap s ++ hx) (globals s)))).
+Proof. exact SimClos.compile_correct_functional_fragment. Qed.
+Print Assumptions compile_correct_partial.
+
+(** end to end for ONE top-level expression of the functional fragment, given globals that represent the SPEC's
+    (procedures defined by earlier forms, data): the thunk built as sexp_generate_op does, applied as sexp_apply does,
+    runs to completion ([run] = Done) with a value representing the SPEC's value, the globals unchanged, the heap
+    extended *)
+Theorem compile_correct_partial_toplevel_expr : forall fuel e st v st' svs h gl,
+  fragF None e = true ->
+  eval fuel e [] st = SVal v st' ->
+  unboxed svs ->
+  (forall g w, glob_lookup g (sglobals st) = Some w -> exists v0, assoc_nat g gl = Some v0 /\ vrelF h (cells st) v0 w) ->
+  exists s0 n v' s',
+    init_state (generate true svs None e ++ [IRet]) h gl = Next s0 /\
+    run n s0 = Done v' s' /\ vrelF (heap s') (cells st') v' v /\ globals s' = gl /\ (exists hx, heap s' = h ++ hx).
+Proof. exact SimClos.compile_correct_toplevel_expr_functional. Qed.
+Print Assumptions compile_correct_partial_toplevel_expr.
+
+(** the closed-procedure fragment (no free local variables) with rest parameters, where the fragment definition does
+    not mention free-variable lists: [fragR]; it records per lambda the variables WITHOUT a stack slot (the rest
+    parameter when flagged UNUSED_REST) *)
+Theorem compile_correct_partial_rest : forall fuel e cur env st v st' tl svs s pre post,
   fragR cur e = true ->
   eval fuel e env st = SVal v st' ->
   unboxed svs ->
@@ -100,28 +137,13 @@ Theorem compile_correct_partial : forall fuel e cur env st v st' tl svs s pre po
      \/ (tl = true /\ forall j rip rself rfp, frame_info s = Some (j, rip, rself, rfp) -> j <= fp s ->
            exists n, nsteps n s = Some (mkst (v' :: below (fp s - j) (stk s)) rfp rself rip (heap s ++ hx) (globals s)))).
 Proof. exact SimRest.compile_correct_rest_fragment. Qed.
-Print Assumptions compile_correct_partial.
+Print Assumptions compile_correct_partial_rest.
 
 (** the plain reading of the fragment (a reference to the rest parameter is always allowed) is contained in [fragR]:
     a rest parameter the compiler flags UNUSED_REST is never mentioned (rest_unused_sound) *)
 Theorem fragR0_is_fragR : forall e, fragR0 None e = true -> fragR None e = true.
 Proof. exact SimRest.fragR0_fragR. Qed.
 Print Assumptions fragR0_is_fragR.
-
-(** end to end for ONE top-level expression of the (plain) fragment, given globals that represent the SPEC's
-    (procedures defined by earlier forms, data): the thunk built as sexp_generate_op does, applied as sexp_apply does,
-    runs to completion ([run] = Done) with a value representing the SPEC's value, the globals unchanged, the heap
-    extended *)
-Theorem compile_correct_partial_toplevel_expr : forall fuel e st v st' svs h gl,
-  fragR0 None e = true ->
-  eval fuel e [] st = SVal v st' ->
-  unboxed svs ->
-  (forall g w, glob_lookup g (sglobals st) = Some w -> exists v0, assoc_nat g gl = Some v0 /\ vrelR h v0 w) ->
-  exists s0 n v' s',
-    init_state (generate true svs None e ++ [IRet]) h gl = Next s0 /\
-    run n s0 = Done v' s' /\ vrelR (heap s') v' v /\ globals s' = gl /\ (exists hx, heap s' = h ++ hx).
-Proof. exact SimRest.compile_correct_toplevel_expr_rest. Qed.
-Print Assumptions compile_correct_partial_toplevel_expr.
 
 (** the call-free fragment with ANY unboxed variable of the current frame (parameters, rest parameter, internal
     defines): Lit / Ref / Cnd / Seq / opcode applications; the SPEC store is unchanged *)
